@@ -56,7 +56,10 @@ pub fn make_conc_case(real_prop: &str, seed: u64, tier: Tier) -> Case {
     let mut r = Rng::new(seed ^ crate::rng::hash_str(7, real_prop));
     // C19 (waiting protocol) rides on every scenario family: readers, cross-thread cycles,
     // writer cancellation, token cancellation, panics with waiters
-    let prop: &str = if real_prop == "C19" { *r.pick(&["C16", "C18", "C18", "C20", "C21", "C22"]) } else { real_prop };
+    let prop: &str = if real_prop == "C19" { *r.pick(&["C16", "C18", "C18", "C20", "C21", "C22", "C21+C22", "C21+C22"]) } else { real_prop };
+    // combined family: token cancellation and a user panic in the same round
+    let combined = prop == "C21+C22";
+    let prop: &str = if combined { "C21" } else { prop };
     let thorough = tier == Tier::Thorough;
     let mut knobs = Knobs::default();
     let mut class;
@@ -308,7 +311,7 @@ pub fn make_conc_case(real_prop: &str, seed: u64, tier: Tier) -> Case {
     // fault plan for the panic scenarios: a panic at a random user callback
     let mut panic_at = None;
     let mut fault_mask = u32::MAX;
-    if prop == "C22" {
+    if prop == "C22" || combined {
         panic_at = Some(r.below(60));
         // event-callback panics during stale-output deletion are a recorded finding of the
         // single-handle check; the concurrent class concentrates on waiting threads
